@@ -6,6 +6,9 @@ import SaramaVerif.Model.Mocks
     async <fixed|pinned> <retSucc 0|1> <retErr 0|1> <partitioner> <op>…
     sync  <chosen|zero> <partitioner> <op>…
     cons  <ChannelBufferSize> <op>…
+    multi <fixed|pinned> <chosen|zero> <partitioner> <op>…     several mocks, configured from map objects the test keeps:
+          n:<h>,<a|s>  new async/sync mock      mk:<map>,<t>=<n>;…  new map object   mu:<map>,<t>,<n> / mx:<map>,<t>  the
+          test changes its map    sp:<h>,<map>  SetPartitions(map)    sd:<h>,<n>   x:<h>,<exp>   s:<h>,<msg>   c:<h>
 
   producer ops:  x:<S|E<code>>/<n|p|f<code>|o<code>>   expectation (checker: none, passes, fails, fails on odd partition)
                  d:<n>  SetDefaultPartitions      p:<topic>,<n>  SetPartitions
@@ -146,6 +149,112 @@ def withPart (name : String) (mode : Mode) (ops : List String) : String :=
   else if name.startsWith "cfix" then go (fixPart (int! ((name.drop 4).toString)))
   else "bad-op"
 
+/-! several mocks configured from shared map objects (`multi`) -/
+
+def liftUnit (P : Part Unit) : Part Int :=
+  { init := fun _ => 0, step := fun _ m n => ((P.step () m n).1, 0) }
+
+def partInt (name : String) : Option (Part Int) :=
+  if name = "manual" then some (liftUnit manualPart)
+  else if name = "hash" then some (liftUnit hashPart)
+  else if name = "fnv" then some (liftUnit fnvPart)
+  else if name = "rr" then some rrPart
+  else if name = "cecho" then some (liftUnit echoPart)
+  else if name = "cmix" then some (liftUnit mixPart)
+  else if name.startsWith "cerr" then some (liftUnit (errPart (int! ((name.drop 4).toString))))
+  else if name.startsWith "cfix" then some (liftUnit (fixPart (int! ((name.drop 4).toString))))
+  else none
+
+structure MMock where
+  h : Nat
+  mode : Mode
+  st : PState Int
+
+/-- the mocks of the case (each with its OWN state, in particular its own `TopicCfg`) and the map objects the
+    test holds (id ↦ entries) -/
+structure MState where
+  mocks : List MMock
+  maps : List (Nat × List (Nat × Int))
+
+def splitHead (s : String) : Nat × String :=
+  match s.splitOn "," with
+  | h :: rest => (nat! h, ",".intercalate rest)
+  | [] => (0, "")
+
+def parseEntries (s : String) : List (Nat × Int) :=
+  if s = "-" ∨ s = "" then [] else
+  (s.splitOn ";").filterMap (fun e =>
+    match e.splitOn "=" with
+    | [t, n] => some (nat! t, int! n)
+    | _ => none)
+
+def setEntry (l : List (Nat × Int)) (t : Nat) (n : Int) : List (Nat × Int) :=
+  if l.any (·.1 = t) then l.map (fun x => if x.1 = t then (t, n) else x) else l ++ [(t, n)]
+
+def setMap (ms : List (Nat × List (Nat × Int))) (id : Nat) (v : List (Nat × Int)) : List (Nat × List (Nat × Int)) :=
+  if ms.any (·.1 = id) then ms.map (fun x => if x.1 = id then (id, v) else x) else ms ++ [(id, v)]
+
+def getMap (ms : List (Nat × List (Nat × Int))) (id : Nat) : Option (List (Nat × Int)) :=
+  (ms.find? (·.1 = id)).map (·.2)
+
+def onMock (P : Part Int) (s : MState) (h : Nat) (tok : String) : Option (MState × Option String) :=
+  match s.mocks.find? (·.h = h) with
+  | none => none
+  | some mk =>
+    (prodTok P mk.mode mk.st tok).map (fun r =>
+      ({ s with mocks := s.mocks.map (fun x => if x.h = h then { x with st := r.1 } else x) }, r.2))
+
+def multiTok (P : Part Int) (fx rc : Bool) (s : MState) (tok : String) : Option (MState × Option String) :=
+  if tok.startsWith "n:" then
+    match (tail2 tok).splitOn "," with
+    | [h, k] =>
+      if s.mocks.any (·.h = nat! h) then none
+      else if k = "a" then some ({ s with mocks := s.mocks ++ [⟨nat! h, .async fx ⟨true, true⟩, PState.init P [] TopicCfg.new⟩] }, none)
+      else if k = "s" then some ({ s with mocks := s.mocks ++ [⟨nat! h, .sync rc, PState.init P [] TopicCfg.new⟩] }, none)
+      else none
+    | _ => none
+  else if tok.startsWith "mk:" then
+    let (id, rest) := splitHead (tail3 tok)
+    some ({ s with maps := setMap s.maps id (parseEntries rest) }, none)
+  else if tok.startsWith "mu:" then
+    match (tail3 tok).splitOn "," with
+    | [id, t, n] => (getMap s.maps (nat! id)).map (fun m => ({ s with maps := setMap s.maps (nat! id) (setEntry m (nat! t) (int! n)) }, none))
+    | _ => none
+  else if tok.startsWith "mx:" then
+    match (tail3 tok).splitOn "," with
+    | [id, t] => (getMap s.maps (nat! id)).map (fun m => ({ s with maps := setMap s.maps (nat! id) (m.filter (·.1 ≠ nat! t)) }, none))
+    | _ => none
+  else if tok.startsWith "sp:" then
+    match (tail3 tok).splitOn "," with
+    | [h, id] =>
+      match getMap s.maps (nat! id), s.mocks.find? (·.h = nat! h) with
+      | some m, some _ =>
+        some ({ s with mocks := s.mocks.map (fun x =>
+          if x.h = nat! h then { x with st := x.st.withTc (x.st.tc.setPartitionsMap m) } else x) }, none)
+      | _, _ => none
+    | _ => none
+  else if tok.startsWith "sd:" then
+    let (h, rest) := splitHead (tail3 tok)
+    onMock P s h ("d:" ++ rest)
+  else if tok.startsWith "x:" then
+    let (h, rest) := splitHead (tail2 tok)
+    onMock P s h ("x:" ++ rest)
+  else if tok.startsWith "s:" then
+    let (h, rest) := splitHead (tail2 tok)
+    onMock P s h ("s:" ++ rest)
+  else if tok.startsWith "c:" then
+    onMock P s (nat! (tail2 tok)) "c"
+  else if tok.startsWith "m:" then some (s, none)
+  else none
+
+def multiRun (P : Part Int) (fx rc : Bool) : MState → List String → List String → String
+  | _, [], acc => " ".intercalate acc.reverse
+  | s, t :: ts, acc =>
+    match multiTok P fx rc s t with
+    | none => "bad-op"
+    | some (s', none) => multiRun P fx rc s' ts acc
+    | some (s', some o) => multiRun P fx rc s' ts (o :: acc)
+
 /-! consumer -/
 
 def parseKey (s : String) : Option Key :=
@@ -231,6 +340,12 @@ def step (_ : Unit) (t : List String) : Unit × String :=
     else ((), "bad-op")
   | "sync" :: v :: part :: ops =>
     if v = "chosen" ∨ v = "zero" then ((), withPart part (.sync (v = "chosen")) ops) else ((), "bad-op")
+  | "multi" :: av :: sv :: part :: ops =>
+    if (av = "fixed" ∨ av = "pinned") ∧ (sv = "chosen" ∨ sv = "zero") then
+      match partInt part with
+      | some P => ((), multiRun P (av = "fixed") (sv = "chosen") ⟨[], []⟩ ops [])
+      | none => ((), "bad-op")
+    else ((), "bad-op")
   | "cons" :: buf :: ops => ((), consRun (nat! buf) CState.init ops [])
   | _ => ((), "bad-op")
 
